@@ -4,6 +4,9 @@ From Verif Require Import Model.Nat Model.NatSpec.
 Import ListNotations.
 Local Open Scope Z_scope.
 
+Arguments lowest_free : simpl never.
+Arguments wrap16 : simpl never.
+
 Definition cfg_ok (c : cfg) : Prop := cfg_okb c = true.
 
 Lemma cfg_ok_iff c :
@@ -199,6 +202,14 @@ Proof.
   - exfalso. apply Hn. rewrite <- He. apply in_map. exact Ha.
 Qed.
 
+Lemma NoDup_app_single_r {A} (l : list A) x : NoDup l -> ~ In x l -> NoDup (l ++ [x]).
+Proof.
+  induction l as [|h tl IH]; cbn; intros Hd Hn; [constructor; [tauto|constructor]|].
+  inversion Hd as [|? ? Hh Ht]; subst. constructor.
+  - rewrite in_app_iff. cbn. intros [H|[H|[]]]; [tauto|]. apply Hn. left. congruence.
+  - apply IH; [exact Ht|tauto].
+Qed.
+
 (* ------------------------------------------------------------------ the invariant *)
 Definition slot (a : alloc) : nat * Z := (a_pool a, a_blk a).
 
@@ -281,7 +292,7 @@ Proof.
         rewrite Hk in Hn'. rewrite Hn in Hn'. inversion Hn'; subst p'. rewrite Hbb in Hu'.
         rewrite Hb in Hu'. exact (lowest_free_notin _ Hu').
       - intros a [<-|Ha]; cbn.
-        + exists {| p_ip := p_ip p; p_subs := p_subs p + 1; p_max := p_max p; p_used := b :: p_used p |}.
+        + eexists.
           split; [apply (nth_upd_same _ _ _ _ Hn)|]. cbn. repeat split; auto.
           * rewrite Hb. apply lowest_free_nonneg.
           * rewrite <- (Hmax _ _ Hn). exact Hm.
@@ -295,8 +306,9 @@ Proof.
           * eexists. split; [left; reflexivity|reflexivity].
           * destruct (Hused _ _ _ Hn Hb') as [a [Ha Hs]]. exists a. split; [right; exact Ha|exact Hs].
         + destruct (Hused _ _ _ H Hb') as [a [Ha Hs]]. exists a. split; [right; exact Ha|exact Hs]. }
-    destruct (find_sid priv (s_sids s)); cbn;
-      (destruct (Hsid 0) as [A B C D E F]; constructor; cbn in *; auto).
+    destruct (find_sid priv (s_sids s)) as [v|]; cbn;
+      [destruct (Hsid v) as [A B C D E F]|destruct (Hsid (s_next_sid s)) as [A B C D E F]];
+      constructor; cbn in *; auto.
   - (* Dealloc *)
     destruct (find_alloc priv (s_allocs s)) as [a|] eqn:Ef; cbn; [|destruct HI; constructor; auto].
     destruct (find_alloc_some _ _ _ Ef) as [Ha Hp].
@@ -328,4 +340,456 @@ Proof.
   - destruct HI; constructor; auto.
   - destruct HI; constructor; auto.
   - destruct HI; constructor; auto.
+Qed.
+
+(* ------------------------------------------------------------------ histories *)
+Lemma run_app s ops1 ops2 : run s (ops1 ++ ops2) = run (run s ops1) ops2.
+Proof. unfold run. apply fold_left_app. Qed.
+
+Lemma run_cons s o ops : run s (o :: ops) = run (next s o) ops.
+Proof. reflexivity. Qed.
+
+Lemma run_inv ops : forall s, Inv s -> Inv (run s ops).
+Proof. induction ops as [|o tl IH]; intros s H; [exact H|]. rewrite run_cons. apply IH, step_inv, H. Qed.
+
+Lemma run_cfg ops : forall s, s_cfg (run s ops) = s_cfg s /\ s_mode (run s ops) = s_mode s.
+Proof.
+  induction ops as [|o tl IH]; intros s; [auto|]. rewrite run_cons.
+  destruct (IH (next s o)) as [-> ->]. apply step_cfg.
+Qed.
+
+(* ------------------------------------------------------------------ clauses on an invariant state *)
+Lemma nodup_nth_inj {A B} (f : A -> B) l i j x y :
+  NoDup (map f l) -> nth_error l i = Some x -> nth_error l j = Some y -> f x = f y -> i = j.
+Proof.
+  intros Hd Hi Hj He. apply (proj1 (NoDup_nth_error (map f l)) Hd).
+  - rewrite map_length. apply nth_error_Some. congruence.
+  - rewrite !nth_error_map, Hi, Hj. cbn. congruence.
+Qed.
+
+Lemma inv_block s a : Inv s -> cfg_ok (s_cfg s) -> In a (s_allocs s) ->
+  a_start a = c_start (s_cfg s) + a_blk a * c_pps (s_cfg s) /\
+  a_end a = a_start a + c_pps (s_cfg s) - 1 /\
+  c_start (s_cfg s) <= a_start a /\ a_start a <= a_end a /\ a_end a <= c_end (s_cfg s) /\ 0 <= a_blk a.
+Proof.
+  intros HI Hc Ha. destruct (I_alloc s HI a Ha) as [p [_ [_ [_ [Hb [Hs He]]]]]].
+  destruct (block_exact _ _ Hc Hb) as [E1 [E2 [E3 [E4 E5]]]].
+  rewrite He, Hs, E2, E1. repeat split; lia.
+Qed.
+
+Lemma inv_no_overlap s a b : Inv s -> cfg_ok (s_cfg s) ->
+  In a (s_allocs s) -> In b (s_allocs s) -> a_priv a <> a_priv b -> a_pub a = a_pub b ->
+  a_end a < a_start b \/ a_end b < a_start a.
+Proof.
+  intros HI Hc Ha Hb Hne Hpub.
+  destruct (I_alloc s HI a Ha) as [p [Hn [Hip _]]].
+  destruct (I_alloc s HI b Hb) as [p' [Hn' [Hip' _]]].
+  assert (Hpool : a_pool a = a_pool b).
+  { apply (nodup_nth_inj p_ip _ _ _ _ _ (I_ips s HI) Hn Hn'). congruence. }
+  assert (Hblk : a_blk a <> a_blk b).
+  { intros Hb'. apply Hne. f_equal. apply (nodup_map_inj slot _ _ _ (I_slot s HI) Ha Hb). unfold slot. congruence. }
+  destruct (inv_block s a HI Hc Ha) as [Sa [Ea [_ [_ [_ Na]]]]].
+  destruct (inv_block s b HI Hc Hb) as [Sb [Eb [_ [_ [_ Nb]]]]].
+  apply cfg_ok_iff in Hc. destruct Hc as [Hp _].
+  destruct (Z.lt_total (a_blk a) (a_blk b)) as [Hlt|[Heq|Hgt]]; [left|congruence|right].
+  - pose proof (blocks_apart (s_cfg s) _ _ Hp Na Hlt). lia.
+  - pose proof (blocks_apart (s_cfg s) _ _ Hp Nb Hgt). lia.
+Qed.
+
+(* ------------------------------------------------------------------ stability *)
+Lemma find_remove_other priv priv' l : priv <> priv' ->
+  find_alloc priv (remove_alloc priv' l) = find_alloc priv l.
+Proof.
+  intros Hne. induction l as [|h tl IH]; cbn; [reflexivity|].
+  destruct (a_priv h =? priv') eqn:E'.
+  - apply Z.eqb_eq in E'. destruct (a_priv h =? priv) eqn:E; [apply Z.eqb_eq in E; congruence|reflexivity].
+  - cbn. destruct (a_priv h =? priv); [reflexivity|exact IH].
+Qed.
+
+Lemma step_keeps s o priv a : o <> Dealloc priv ->
+  find_alloc priv (s_allocs s) = Some a -> find_alloc priv (s_allocs (next s o)) = Some a.
+Proof.
+  intros Ho Hf. unfold next, step, step_body. destruct o as [ip|q|q|q| |co]; cbn; auto.
+  - destruct (existsb _ _); cbn; auto.
+  - destruct (find_alloc q (s_allocs s)) eqn:Eq; cbn; auto.
+    destruct (select_pool _ _) as [[[i p] b]|]; cbn; auto.
+    assert (Hne : (q =? priv) = false).
+    { apply Z.eqb_neq. intros ->. congruence. }
+    destruct (find_sid _ _); cbn; rewrite Hne; exact Hf.
+  - destruct (find_alloc q (s_allocs s)) eqn:Eq; cbn; auto.
+    rewrite find_remove_other; [exact Hf|]. intros ->. apply Ho. reflexivity.
+Qed.
+
+Lemma run_keeps ops : forall s priv a, Forall (fun o => o <> Dealloc priv) ops ->
+  find_alloc priv (s_allocs s) = Some a -> find_alloc priv (s_allocs (run s ops)) = Some a.
+Proof.
+  induction ops as [|o tl IH]; intros s priv a Hall Hf; [exact Hf|].
+  inversion Hall; subst. rewrite run_cons. apply IH; [assumption|]. apply step_keeps; assumption.
+Qed.
+
+Definition result (s : state) (o : op) : res := o_res (snd (fst (step s o))).
+
+Lemma result_alloc_holder s priv a : find_alloc priv (s_allocs s) = Some a ->
+  result s (Alloc priv) = RAlloc (view a) /\ result s (Get priv) = RGet (Some (view a)).
+Proof. intros H. unfold result, step, step_body. cbn. rewrite H. cbn. auto. Qed.
+
+(* ------------------------------------------------------------------ the log *)
+Definition LogT (s : state) : Prop := Forall (fun tr => fst tr <= s_clock s) (s_log s).
+
+Definition rec_matches (bs : Z) (s : state) : Prop :=
+  match s_mode s with
+  | LogOff => False
+  | LogBulk => True
+  | LogTrad => cfg_ok (s_cfg s) /\ bs = c_pps (s_cfg s)
+  end.
+
+Lemma remove_blk_alloc priv l a : find_alloc priv l = Some a ->
+  remove_blk (a_priv a) (a_pub a) (a_start a) (map blk_of l) = map blk_of (remove_alloc priv l).
+Proof.
+  induction l as [|h tl IH]; cbn; [discriminate|].
+  destruct (a_priv h =? priv) eqn:E.
+  - intros H; inversion H; subst. rewrite !Z.eqb_refl. reflexivity.
+  - intros H. destruct (find_alloc_some _ _ _ H) as [_ Hp].
+    assert (Hc : (a_priv h =? a_priv a) = false) by (rewrite Hp; exact E).
+    rewrite Hc. cbn. rewrite (IH H). reflexivity.
+Qed.
+
+(* the new records of one step, and their effect when read back *)
+Lemma step_log s o : exists recs,
+  s_log (next s o) = map (fun r => (s_clock s + 1, r)) recs ++ s_log s /\ s_clock (next s o) = s_clock s + 1.
+Proof.
+  unfold next, step, step_body. destruct o as [ip|q|q|q| |co]; cbn.
+  - destruct (existsb _ _); cbn; exists []; auto.
+  - destruct (find_alloc q (s_allocs s)); cbn; [exists []; auto|].
+    destruct (select_pool _ _) as [[[i p] b]|]; cbn; [|exists []; auto].
+    destruct (find_sid _ _); cbn; eexists; split; reflexivity.
+  - destruct (find_alloc q (s_allocs s)); cbn; [|exists []; auto]. eexists; split; reflexivity.
+  - exists []; auto.
+  - exists []; auto.
+  - exists []; auto.
+Qed.
+
+Lemma step_logT s o : LogT s -> LogT (next s o).
+Proof.
+  unfold LogT. intros H. destruct (step_log s o) as [recs [-> ->]]. apply Forall_app. split.
+  - apply Forall_forall. intros tr Hin. apply in_map_iff in Hin. destruct Hin as [r [<- _]]. cbn. lia.
+  - eapply Forall_impl; [|exact H]. cbn. intros; lia.
+Qed.
+
+Lemma run_logT ops : forall s, LogT s -> LogT (run s ops).
+Proof. induction ops as [|o tl IH]; intros s H; [exact H|]. rewrite run_cons. apply IH, step_logT, H. Qed.
+
+Lemma run_clock ops : forall s, s_clock (run s ops) = s_clock s + Z.of_nat (length ops).
+Proof.
+  induction ops as [|o tl IH]; intros s; [cbn; lia|]. rewrite run_cons, IH.
+  destruct (step_log s o) as [recs [_ ->]]. cbn [length]. lia.
+Qed.
+
+Lemma run_log_ext ops : forall s, exists newer,
+  s_log (run s ops) = newer ++ s_log s /\ Forall (fun tr => s_clock s < fst tr) newer.
+Proof.
+  induction ops as [|o tl IH]; intros s; [exists []; split; [reflexivity|constructor]|].
+  rewrite run_cons. destruct (IH (next s o)) as [n1 [E1 F1]].
+  destruct (step_log s o) as [recs [E2 E3]]. rewrite E2 in E1. rewrite E3 in F1.
+  exists (n1 ++ map (fun r => (s_clock s + 1, r)) recs). split.
+  - rewrite E1, app_assoc. reflexivity.
+  - apply Forall_app. split.
+    + eapply Forall_impl; [|exact F1]. cbn. intros; lia.
+    + apply Forall_forall. intros tr Hin. apply in_map_iff in Hin. destruct Hin as [r [<- _]]. cbn. lia.
+Qed.
+
+Lemma filter_all {A} (f : A -> bool) l : Forall (fun x => f x = true) l -> filter f l = l.
+Proof. induction 1 as [|x tl H _ IH]; cbn; [reflexivity|]. rewrite H, IH. reflexivity. Qed.
+Lemma filter_none {A} (f : A -> bool) l : Forall (fun x => f x = false) l -> filter f l = [].
+Proof. induction 1 as [|x tl H _ IH]; cbn; [reflexivity|]. rewrite H, IH. reflexivity. Qed.
+
+(* reading the log only up to time t = the log as it was after the first t operations *)
+Lemma log_upto s0 ops t : LogT s0 -> s_clock s0 = 0 -> 0 <= t ->
+  filter (fun tr => fst tr <=? t) (s_log (run s0 ops)) = s_log (run s0 (firstn (Z.to_nat t) ops)).
+Proof.
+  intros HT Hc Ht.
+  rewrite <- (firstn_skipn (Z.to_nat t) ops) at 1. rewrite run_app.
+  set (s1 := run s0 (firstn (Z.to_nat t) ops)).
+  assert (HT1 : LogT s1) by (apply run_logT; exact HT).
+  assert (Hc1 : s_clock s1 = Z.of_nat (length (firstn (Z.to_nat t) ops))).
+  { unfold s1. rewrite run_clock, Hc. lia. }
+  destruct (run_log_ext (skipn (Z.to_nat t) ops) s1) as [newer [E F]]. rewrite E.
+  rewrite filter_app.
+  destruct (Nat.le_gt_cases (Z.to_nat t) (length ops)) as [Hle|Hgt].
+  - rewrite firstn_length_le in Hc1 by exact Hle.
+    rewrite (filter_none _ newer), (filter_all _ (s_log s1)); [reflexivity| |].
+    + eapply Forall_impl; [|exact HT1]. cbn. intros tr H. apply Z.leb_le. lia.
+    + eapply Forall_impl; [|exact F]. cbn. intros tr H. apply Z.leb_gt. lia.
+  - rewrite skipn_all2 in E by lia. cbn in E.
+    assert (newer = []).
+    { destruct newer as [|x tl]; [reflexivity|]. exfalso.
+      assert (Hl : length (s_log s1) = length ((x :: tl) ++ s_log s1)) by (rewrite <- E; reflexivity).
+      rewrite app_length in Hl. cbn in Hl. lia. }
+    subst newer. cbn. apply filter_all.
+    rewrite firstn_length in Hc1.
+    eapply Forall_impl; [|exact HT1]. cbn. intros tr H. apply Z.leb_le. lia.
+Qed.
+
+(* the log read back gives the allocation table, at every reachable state *)
+Definition LogOK (bs : Z) (s : state) : Prop := replay bs (s_log s) = map blk_of (s_allocs s).
+
+Lemma replay_app bs l1 l2 :
+  replay bs (l1 ++ l2) = fold_right (fun tr act => apply_rec bs act (snd tr)) (replay bs l2) l1.
+Proof. unfold replay. apply fold_right_app. Qed.
+
+Lemma replay_cons bs tr l : replay bs (tr :: l) = apply_rec bs (replay bs l) (snd tr).
+Proof. reflexivity. Qed.
+Arguments replay : simpl never.
+
+Lemma step_logok bs s o : Inv s -> rec_matches bs s -> LogOK bs s -> LogOK bs (next s o).
+Proof.
+  intros HI Hm HL. unfold LogOK in *. unfold next, step, step_body.
+  destruct o as [ip|q|q|q| |co]; cbn; auto.
+  - destruct (existsb _ _); cbn; auto.
+  - destruct (find_alloc q (s_allocs s)) eqn:Ef; cbn; auto.
+    destruct (select_pool 0 (s_pool s)) as [[[i p] b]|] eqn:Es; cbn; auto.
+    destruct (select_pool_spec _ _ _ _ _ Es) as [k [Hi [Hn [Hb Hlt]]]].
+    assert (Hend : s_mode s = LogTrad ->
+              wrap16 (c_start (s_cfg s) + b * c_pps (s_cfg s)) + bs - 1 =
+              wrap16 (wrap16 (c_start (s_cfg s) + b * c_pps (s_cfg s)) + wrap16 (c_pps (s_cfg s)) - 1)).
+    { intros Hmode. unfold rec_matches in Hm. rewrite Hmode in Hm. destruct Hm as [Hc ->].
+      assert (Hbb : 0 <= b < max_subs (s_cfg s)).
+      { split; [rewrite Hb; apply lowest_free_nonneg|rewrite <- (I_max s HI _ _ Hn); exact Hlt]. }
+      destruct (block_exact _ _ Hc Hbb) as [E1 [E2 _]]. rewrite E2, E1. lia. }
+    unfold rec_matches in Hm. revert Hm Hend.
+    destruct (find_sid _ _); destruct (s_mode s) eqn:Em; intros Hm Hend; cbn; try contradiction;
+      rewrite replay_cons; cbn; unfold apply_rec; cbn; rewrite HL; try reflexivity;
+      rewrite (Hend eq_refl); reflexivity.
+  - destruct (find_alloc q (s_allocs s)) as [a|] eqn:Ef; cbn; auto.
+    unfold rec_matches in Hm. revert Hm.
+    destruct (s_mode s) eqn:Em; intros Hm; cbn; try contradiction;
+      rewrite replay_cons; cbn; unfold apply_rec; cbn; rewrite HL; apply remove_blk_alloc; exact Ef.
+Qed.
+
+Lemma step_matches bs s o : rec_matches bs s -> rec_matches bs (next s o).
+Proof. unfold rec_matches. destruct (step_cfg s o) as [-> ->]. auto. Qed.
+
+Lemma run_logok bs ops : forall s, Inv s -> rec_matches bs s -> LogOK bs s -> LogOK bs (run s ops).
+Proof.
+  induction ops as [|o tl IH]; intros s HI Hm HL; [exact HL|]. rewrite run_cons.
+  apply IH; [apply step_inv; exact HI|apply step_matches; exact Hm|apply step_logok; assumption].
+Qed.
+
+(* ------------------------------------------------------------------ at most one holder *)
+Lemma filter_unique {A} (f : A -> bool) l :
+  NoDup l -> (forall a b, In a l -> In b l -> f a = true -> f b = true -> a = b) ->
+  (length (filter f l) <= 1)%nat.
+Proof.
+  induction l as [|x tl IH]; intros Hd Hu; cbn; [lia|].
+  inversion Hd as [|? ? Hx Ht]; subst.
+  assert (IH' : (length (filter f tl) <= 1)%nat).
+  { apply IH; [exact Ht|]. intros a b Ha Hb. apply Hu; right; assumption. }
+  destruct (f x) eqn:E; [|exact IH']. cbn.
+  destruct (filter f tl) as [|y r] eqn:Ef; [cbn; lia|]. exfalso.
+  assert (Hy : In y (filter f tl)) by (rewrite Ef; left; reflexivity).
+  apply filter_In in Hy. destruct Hy as [Hy Hfy].
+  assert (x = y) by (apply Hu; [left; reflexivity|right; exact Hy|exact E|exact Hfy]).
+  subst y. contradiction.
+Qed.
+
+Lemma filter_map_comm {A B} (g : A -> B) (f : B -> bool) l :
+  filter f (map g l) = map g (filter (fun x => f (g x)) l).
+Proof. induction l as [|x tl IH]; cbn; [reflexivity|]. destruct (f (g x)); cbn; rewrite IH; reflexivity. Qed.
+
+Lemma holders_alt s ip port :
+  holders s ip port = map a_priv (filter (fun a => covers ip port (blk_of a)) (s_allocs s)).
+Proof. unfold holders. rewrite filter_map_comm, map_map. reflexivity. Qed.
+
+Lemma inv_one_holder s ip port : Inv s -> cfg_ok (s_cfg s) -> (length (holders s ip port) <= 1)%nat.
+Proof.
+  intros HI Hc. rewrite holders_alt, map_length. apply filter_unique.
+  - apply (NoDup_map_inv a_priv). exact (I_priv s HI).
+  - intros a b Ha Hb Ca Cb. unfold covers in *. cbn in *.
+    destruct (Z.eq_dec (a_priv a) (a_priv b)) as [He|Hne].
+    + apply (nodup_map_inj a_priv _ _ _ (I_priv s HI) Ha Hb He).
+    + exfalso. assert (Hpub : a_pub a = a_pub b) by lia.
+      destruct (inv_no_overlap s a b HI Hc Ha Hb Hne Hpub); lia.
+Qed.
+
+Lemma inv_holder_is s a port : Inv s -> cfg_ok (s_cfg s) -> In a (s_allocs s) ->
+  a_start a <= port <= a_end a -> holders s (a_pub a) port = [a_priv a].
+Proof.
+  intros HI Hc Ha Hp. pose proof (inv_one_holder s (a_pub a) port HI Hc) as H1.
+  assert (Hin : In (a_priv a) (holders s (a_pub a) port)).
+  { rewrite holders_alt. apply in_map. apply filter_In. split; [exact Ha|]. unfold covers. cbn. lia. }
+  destruct (holders s (a_pub a) port) as [|x [|y r]]; cbn in *; [tauto| |lia].
+  destruct Hin as [->|[]]. reflexivity.
+Qed.
+
+(* ------------------------------------------------------------------ statements over all histories *)
+Definition hist (c : cfg) (m : logmode) (ops : list op) : state := run (init c m) ops.
+
+Lemma hist_inv c m ops : Inv (hist c m ops).
+Proof. apply run_inv, inv_init. Qed.
+Lemma hist_cfg c m ops : s_cfg (hist c m ops) = c.
+Proof. unfold hist. destruct (run_cfg ops (init c m)) as [-> _]. reflexivity. Qed.
+Lemma hist_mode c m ops : s_mode (hist c m ops) = m.
+Proof. unfold hist. destruct (run_cfg ops (init c m)) as [_ ->]. reflexivity. Qed.
+
+Lemma c10_no_overlap c m ops a b : cfg_ok c ->
+  In a (s_allocs (hist c m ops)) -> In b (s_allocs (hist c m ops)) ->
+  a_priv a <> a_priv b -> a_pub a = a_pub b -> a_end a < a_start b \/ a_end b < a_start a.
+Proof. intros Hc. apply inv_no_overlap; [apply hist_inv|rewrite hist_cfg; exact Hc]. Qed.
+
+Lemma c10_in_range c m ops a : cfg_ok c -> In a (s_allocs (hist c m ops)) ->
+  c_start c <= a_start a /\ a_start a <= a_end a /\ a_end a <= c_end c /\ a_end a <= 65535.
+Proof.
+  intros Hc Ha. pose proof (inv_block _ a (hist_inv c m ops)) as H. rewrite hist_cfg in H.
+  destruct (H Hc Ha) as [_ [_ [H1 [H2 [H3 _]]]]]. apply cfg_ok_iff in Hc. lia.
+Qed.
+
+Lemma c10_block_size c m ops a : cfg_ok c -> In a (s_allocs (hist c m ops)) ->
+  a_end a - a_start a + 1 = c_pps c.
+Proof.
+  intros Hc Ha. pose proof (inv_block _ a (hist_inv c m ops)) as H. rewrite hist_cfg in H.
+  destruct (H Hc Ha) as [_ [H1 _]]. lia.
+Qed.
+
+Lemma c10_one_block_per_subscriber c m ops : NoDup (map a_priv (s_allocs (hist c m ops))).
+Proof. apply I_priv, hist_inv. Qed.
+
+Lemma c10_stable c m ops1 ops2 priv a :
+  find_alloc priv (s_allocs (hist c m ops1)) = Some a ->
+  Forall (fun o => o <> Dealloc priv) ops2 ->
+  find_alloc priv (s_allocs (hist c m (ops1 ++ ops2))) = Some a /\
+  result (hist c m (ops1 ++ ops2)) (Alloc priv) = RAlloc (view a) /\
+  result (hist c m (ops1 ++ ops2)) (Get priv) = RGet (Some (view a)).
+Proof.
+  intros Hf Hall. unfold hist in *. rewrite run_app.
+  pose proof (run_keeps ops2 _ priv a Hall Hf) as Hk. split; [exact Hk|]. apply result_alloc_holder, Hk.
+Qed.
+
+Lemma c10_released c m ops priv :
+  find_alloc priv (s_allocs (hist c m (ops ++ [Dealloc priv]))) = None.
+Proof.
+  unfold hist. rewrite run_app. set (s := run (init c m) ops).
+  assert (HI : Inv s) by (apply run_inv, inv_init).
+  cbn. unfold next, step, step_body. cbn.
+  destruct (find_alloc priv (s_allocs s)) as [a|] eqn:Ef; cbn; [|exact Ef].
+  destruct (find_alloc priv (remove_alloc priv (s_allocs s))) as [x|] eqn:Ex; [|reflexivity].
+  exfalso. destruct (find_alloc_some _ _ _ Ex) as [Hin Hp].
+  exact (remove_alloc_drops _ _ _ (I_priv s HI) Hin Hp).
+Qed.
+
+Lemma init_logT c m : LogT (init c m).
+Proof. constructor. Qed.
+
+Lemma c10_attributable c m ops bs ip port t :
+  rec_matches bs (init c m) -> 0 <= t ->
+  attribute bs (s_log (hist c m ops)) ip port t = holders (hist c m (firstn (Z.to_nat t) ops)) ip port.
+Proof.
+  intros Hm Ht. unfold attribute, holders, hist.
+  rewrite (log_upto (init c m) ops t (init_logT c m) eq_refl Ht).
+  rewrite (run_logok bs _ (init c m) (inv_init c m) Hm); [reflexivity|reflexivity].
+Qed.
+
+Lemma c10_attributable_bulk c ops bs ip port t : 0 <= t ->
+  attribute bs (s_log (hist c LogBulk ops)) ip port t =
+  holders (hist c LogBulk (firstn (Z.to_nat t) ops)) ip port.
+Proof. intros Ht. apply c10_attributable; [exact I|exact Ht]. Qed.
+
+Lemma c10_attributable_trad c ops ip port t : cfg_ok c -> 0 <= t ->
+  attribute (c_pps c) (s_log (hist c LogTrad ops)) ip port t =
+  holders (hist c LogTrad (firstn (Z.to_nat t) ops)) ip port.
+Proof. intros Hc Ht. apply c10_attributable; [split; [exact Hc|reflexivity]|exact Ht]. Qed.
+
+Lemma c10_at_most_one_holder c m ops ip port : cfg_ok c ->
+  (length (holders (hist c m ops) ip port) <= 1)%nat.
+Proof. intros Hc. apply inv_one_holder; [apply hist_inv|rewrite hist_cfg; exact Hc]. Qed.
+
+Lemma c10_holder_exactly_one c m ops a port : cfg_ok c ->
+  In a (s_allocs (hist c m ops)) -> a_start a <= port <= a_end a ->
+  holders (hist c m ops) (a_pub a) port = [a_priv a].
+Proof. intros Hc. apply inv_holder_is; [apply hist_inv|rewrite hist_cfg; exact Hc]. Qed.
+
+Lemma c10_attribute_names_the_holder c ops bs a port t : cfg_ok c -> 0 <= t ->
+  In a (s_allocs (hist c LogBulk (firstn (Z.to_nat t) ops))) -> a_start a <= port <= a_end a ->
+  attribute bs (s_log (hist c LogBulk ops)) (a_pub a) port t = [a_priv a].
+Proof.
+  intros Hc Ht Ha Hp. rewrite c10_attributable_bulk by exact Ht. apply c10_holder_exactly_one; assumption.
+Qed.
+
+Lemma step_log_off s o : s_mode s = LogOff -> s_log (next s o) = s_log s.
+Proof.
+  intros Hm. unfold next, step, step_body. destruct o as [ip|q|q|q| |co]; cbn; auto.
+  - destruct (existsb _ _); reflexivity.
+  - destruct (find_alloc _ _); cbn; auto. destruct (select_pool _ _) as [[[i p] b]|]; cbn; auto.
+    destruct (find_sid _ _); cbn; rewrite Hm; reflexivity.
+  - destruct (find_alloc _ _); cbn; auto. rewrite Hm. reflexivity.
+Qed.
+
+Lemma c10_logging_off_no_records c ops : s_log (hist c LogOff ops) = [].
+Proof.
+  unfold hist. assert (H : forall s, s_mode s = LogOff -> s_log (run s ops) = s_log s).
+  { induction ops as [|o tl IH]; intros s Hm; [reflexivity|]. rewrite run_cons, IH.
+    - apply step_log_off, Hm.
+    - destruct (step_cfg s o) as [_ ->]. exact Hm. }
+  apply (H (init c LogOff)). reflexivity.
+Qed.
+
+Lemma c10_new_cfg_in_guard pps st en : 1 <= pps -> 1 <= st -> st <= en -> en <= 65535 ->
+  new_cfg pps st en = {| c_pps := pps; c_start := st; c_end := en |} /\ cfg_ok (new_cfg pps st en).
+Proof.
+  intros H1 H2 H3 H4. unfold new_cfg.
+  destruct (pps =? 0) eqn:E1; [lia|]. destruct (st =? 0) eqn:E2; [lia|]. destruct (en =? 0) eqn:E3; [lia|].
+  split; [reflexivity|]. apply cfg_ok_iff. cbn. lia.
+Qed.
+
+(* ------------------------------------------------------------------ outside the guard (witnesses) *)
+Definition w_ops3 : list op := [AddIP 1; Alloc 101; Alloc 102; Alloc 103].
+
+Lemma c10_in_range_outside_guard_refuted :
+  ~ (forall c m ops a, In a (s_allocs (hist c m ops)) ->
+       c_start c <= a_start a /\ a_start a <= a_end a /\ a_end a <= c_end c).
+Proof.
+  intros H.
+  specialize (H {| c_pps := 3000; c_start := 60000; c_end := 70000 |} LogBulk w_ops3
+                {| a_priv := 102; a_pub := 1; a_start := 63000; a_end := 463; a_pool := 0; a_sid := 2; a_blk := 1 |}).
+  assert (Hin : In {| a_priv := 102; a_pub := 1; a_start := 63000; a_end := 463; a_pool := 0; a_sid := 2; a_blk := 1 |}
+                   (s_allocs (hist {| c_pps := 3000; c_start := 60000; c_end := 70000 |} LogBulk w_ops3))).
+  { vm_compute. right. left. reflexivity. }
+  specialize (H Hin). cbn in H. lia.
+Qed.
+
+Lemma c10_size_outside_guard_refuted :
+  ~ (forall c m ops a, In a (s_allocs (hist c m ops)) -> a_end a - a_start a + 1 = c_pps c).
+Proof.
+  intros H.
+  specialize (H {| c_pps := 70000; c_start := 1; c_end := 200000 |} LogBulk w_ops3
+                {| a_priv := 101; a_pub := 1; a_start := 1; a_end := 4464; a_pool := 0; a_sid := 1; a_blk := 0 |}).
+  assert (Hin : In {| a_priv := 101; a_pub := 1; a_start := 1; a_end := 4464; a_pool := 0; a_sid := 1; a_blk := 0 |}
+                   (s_allocs (hist {| c_pps := 70000; c_start := 1; c_end := 200000 |} LogBulk w_ops3))).
+  { vm_compute. right. left. reflexivity. }
+  specialize (H Hin). cbn in H. lia.
+Qed.
+
+Lemma c10_no_overlap_outside_guard_refuted :
+  ~ (forall c m ops a b, In a (s_allocs (hist c m ops)) -> In b (s_allocs (hist c m ops)) ->
+       a_priv a <> a_priv b -> a_pub a = a_pub b -> a_end a < a_start b \/ a_end b < a_start a).
+Proof.
+  intros H.
+  specialize (H {| c_pps := 40000; c_start := 1; c_end := 200000 |} LogBulk w_ops3
+                {| a_priv := 101; a_pub := 1; a_start := 1; a_end := 40000; a_pool := 0; a_sid := 1; a_blk := 0 |}
+                {| a_priv := 103; a_pub := 1; a_start := 14465; a_end := 54464; a_pool := 0; a_sid := 3; a_blk := 2 |}).
+  cbn in H. destruct H as [H|H]; try lia; try discriminate; try reflexivity.
+  - vm_compute. right. right. left. reflexivity.
+  - vm_compute. left. reflexivity.
+Qed.
+
+(* a traditional-format record does not say where the block ends: two configurations write the
+   same log for the same history yet disagree on who holds port 61500 *)
+Lemma c10_traditional_record_alone_insufficient :
+  exists c1 c2 ops ip port,
+    cfg_ok c1 /\ cfg_ok c2 /\
+    s_log (hist c1 LogTrad ops) = s_log (hist c2 LogTrad ops) /\
+    holders (hist c1 LogTrad ops) ip port <> holders (hist c2 LogTrad ops) ip port.
+Proof.
+  exists {| c_pps := 1000; c_start := 60000; c_end := 65535 |},
+         {| c_pps := 2000; c_start := 60000; c_end := 65535 |}, [AddIP 1; Alloc 101], 1, 61500.
+  repeat split; try reflexivity. vm_compute. discriminate.
 Qed.
